@@ -144,3 +144,12 @@ Print Assumptions C07_adaptive_factor_bounds.
 Example C07_nonvacuous :
   fst (explicit_rk Qops (field Qops [FY 0]) rk4_c rk4_b rk4_a [0; 1] [1]) = [[1]; [65 # 24]].
 Proof. vm_compute. reflexivity. Qed.
+
+(* ---- xitorch/_utils/misc.py:TensorPacker.__init__ as translated from /repo on this run (Gen/PyTensorPacker.v, tensors
+   modelled by their shapes): contiguous (start, finish, shape) triples, and cutting the concatenated flat payload at these
+   offsets returns every tensor's payload, for EVERY list of shapes (tuple-valued states).  Statement:
+   Proofs/PyTensorPackerProofs.v, translated_tensorpacker_statement. ---- *)
+From XV Require Proofs.PyTensorPackerProofs.
+Theorem C07_translated_tensorpacker_slices : PyTensorPackerProofs.translated_tensorpacker_statement.
+Proof. exact PyTensorPackerProofs.translated_tensorpacker. Qed.
+Print Assumptions C07_translated_tensorpacker_slices.
